@@ -34,6 +34,8 @@ def lemmas():
         out.append(S('C11', F, '_TabulationSection.' + prop_, 'reads-its-own-grid', ['return self.' + fld]))
     out.append(S('C11', contracts.pair_tabulation.FILE, 'PairTabulation_AbstractBase.dr', 'dr=cutoff/(nr-1)', ['return self.cutoff / float(self.nr - 1)']))
     out.append(S('C11', 'atsim/potentials/eam_tabulation.py', '_EAMTabulationAbstractbase.drho', 'drho=cutoff_rho/(nrho-1)', ['return self.cutoff_rho / float(self.nrho - 1)']))
+    out.append(S('C11', contracts.pair_tabulation.FILE, '_r_value_iterator', 'nr-points-on-the-r-grid', ['for n in range(tabulation.nr):', 'yield (float(n) * tabulation.cutoff / (float(tabulation.nr) - 1))']))
+    out.append(S('C11', 'atsim/potentials/eam_tabulation.py', '_rho_value_iterator', 'nrho-points-on-the-rho-grid', ['for n in range(tabulation.nrho):', 'yield (float(n) * tabulation.cutoff_rho / (float(tabulation.nrho) - 1))']))
     out.append(S('C11', FC.FILE, 'PairTabulationFactory.extract_tabulation_args', 'argument-order', ['return [potobjs, r_cutoff.cutoff, r_cutoff.nr]']))
     out.append(S('C11', FC.FILE, 'EAMTabulationFactory.extract_tabulation_args', 'argument-order', ['args = [potobjs, eam_potentials, r_cutoff.cutoff, r_cutoff.nr, r_cutoff.cutoff_rho, r_cutoff.nrho]', 'return args']))
     out.append(S('C11', FC.FILE, 'PairTabulationFactory.create_tabulation', 'constructs-with-those-arguments', ['r_cutoff = self.extract_cutoffs(cp)', 'tabulation = self.tabulation_class(*tabulationargs)', 'return tabulation']))
